@@ -32,7 +32,15 @@ fn open_both(bytes: &[u8], range: Rng, probes: &[u64]) -> (Result<(View, VerifSn
 /// both readers on the same bytes: same value, or an error on both sides
 pub fn readers_agree(bytes: &[u8], range: Rng, probes: &[u64]) -> Option<(String, String)> {
     match open_both(bytes, range, probes) {
-        (Ok((vs, ss)), Ok((va, sa))) => {
+        (Ok((mut vs, ss)), Ok((mut va, sa))) => {
+            // error texts are not part of the contract: an error on both sides is agreement
+            for v in [&mut vs, &mut va] {
+                for t in v.tiles.values_mut() {
+                    if t.is_err() {
+                        *t = Err("error".into());
+                    }
+                }
+            }
             if vs != va {
                 return Some(("open-values-differ".into(), format!("sync and async readers return different content for range {range:?}: {} vs {} tiles", vs.num_tiles, va.num_tiles)));
             }
@@ -325,6 +333,75 @@ pub fn run(tier: &str) -> i32 {
     rep.eval(n_dirs);
     rep.nontrivial(n_dirs);
     rep.count("directory_lists", n_dirs);
+    // (c2) framing variants of the codecs: the same payload as several gzip members / zstd frames, with
+    // optional gzip header fields, and with surplus bytes inside the declared length. Whether such a
+    // section is acceptable is not decided here - only that both twins decide alike and return equal values.
+    {
+        let lists: Vec<Vec<SEntry>> = vec![
+            vec![SEntry::new(1, 0, 5, 2), SEntry::new(9, 5, 7, 1)],
+            (0..300u64).map(|i| SEntry::new(i * 3, i * 11, 11, 1)).collect(),
+        ];
+        let mut nv = 0u64;
+        for es in lists.iter() {
+            let plain = dir::encode(es);
+            for (code, c) in [(2u8, Compression::GZip), (4u8, Compression::ZStd), (3u8, Compression::Brotli)] {
+                let whole = codec::compress(code, &plain);
+                let mut variants: Vec<(&str, Vec<u8>)> = Vec::new();
+                for cut in [1usize, plain.len() / 2, plain.len() - 1] {
+                    let mut two = codec::compress(code, &plain[..cut]);
+                    two.extend_from_slice(&codec::compress(code, &plain[cut..]));
+                    variants.push(("two-members", two));
+                }
+                let mut t = whole.clone();
+                t.extend_from_slice(&[0u8; 9]);
+                variants.push(("surplus-zero-bytes", t));
+                let mut t = whole.clone();
+                t.extend_from_slice(b"garbage!");
+                variants.push(("surplus-garbage", t));
+                let mut t = whole.clone();
+                t.extend_from_slice(&whole);
+                variants.push(("member-twice", t));
+                if code == 2 {
+                    // gzip header with FNAME and FEXTRA
+                    let mut g = vec![0x1f, 0x8b, 8, 0x0c, 0, 0, 0, 0, 0, 3, 2, 0, b'x', b'y'];
+                    g.extend_from_slice(b"name\0");
+                    g.extend_from_slice(&whole[10..]);
+                    variants.push(("gzip-fname-fextra", g));
+                }
+                for (vn, b) in variants {
+                    nv += 1;
+                    if let Some((k, d)) = check_dir_bytes(&b, c) {
+                        rep.violation(format!("{k}/{vn}"), format!("[{} {vn}] {d}", cname(c)), json!({"kind":"framing","variant":vn,"comp":cname(c),"hex":hex(&b[..b.len().min(400)])}));
+                    }
+                    // the same section as the metadata of an archive and as its root directory
+                    use crate::spec::archive::{encode_foreign, Layout, Node};
+                    let f = encode_foreign(&[Node::Tile(SEntry::new(0, 0, 2, 1))], b"AA", Some(b"{\"a\":1}"), code, &Layout::default(), SHeader { tile_type: 2, tile_compression: 1, ..SHeader::default() });
+                    let mut arch = f.bytes.clone();
+                    // replace the root directory section by the variant: rebuild header offsets by hand
+                    let h = f.header.clone();
+                    let old_root = (h.root_offset as usize, (h.root_offset + h.root_length) as usize);
+                    let tail = arch.split_off(old_root.1);
+                    arch.truncate(old_root.0);
+                    arch.extend_from_slice(&b);
+                    let delta = b.len() as i64 - h.root_length as i64;
+                    arch.extend_from_slice(&tail);
+                    let mut h2 = h.clone();
+                    h2.root_length = b.len() as u64;
+                    h2.meta_offset = (h.meta_offset as i64 + delta) as u64;
+                    h2.leaf_offset = (h.leaf_offset as i64 + delta) as u64;
+                    h2.data_offset = (h.data_offset as i64 + delta) as u64;
+                    arch[..127].copy_from_slice(&h2.encode());
+                    let ids: Vec<u64> = es.iter().map(|e| e.tile_id).collect();
+                    if let Some((k, d)) = readers_agree(&arch, (Bound::Unbounded, Bound::Unbounded), &ids[..ids.len().min(4)]) {
+                        rep.violation(format!("{k}/{vn}"), format!("[{} root directory as {vn}] {d}", cname(c)), json!({"kind":"framing-archive","variant":vn,"comp":cname(c)}));
+                    }
+                }
+            }
+        }
+        rep.eval(nv * 2);
+        rep.nontrivial(nv);
+        rep.count("codec_framing_variants", nv);
+    }
     // (d) directory writer around the crossing
     let mut jobs = Vec::new();
     for fam in 0..3u32 {
